@@ -238,6 +238,10 @@ func (g *gen) constValue(t *ty, depth int) string {
 		if g.chance("splat", 20) {
 			return fmt.Sprintf("%s(%s)", t, g.scalarLit(t.sc, true))
 		}
+		if t.n == 4 && depth < 2 && g.chance("nestedCtor", 15) {
+			h := vec(2, t.sc)
+			return fmt.Sprintf("%s(%s, %s)", t, g.constValue(h, depth+1), g.constValue(h, depth+1))
+		}
 		parts := make([]string, t.n)
 		for i := range parts {
 			parts[i] = g.scalarLit(t.sc, true)
